@@ -64,9 +64,11 @@ CHECKS = {
                   "soundness/completeness, list induction) + vm_compute "
                   "correspondence + source-to-Coq translation of "
                   "handler_from_table, handler_from_default (precedence "
-                  "skeleton) with proved equality to the model + generated "
-                  "census of the inputs the dispatch code consults (policy "
-                  "theorem by vm_compute)"),
+                  "skeleton) and of the route-pattern compiler (built-in "
+                  "filters, __regex, __converter, set_filter, compile step "
+                  "of set_route) with proved equality to the model + "
+                  "generated census of the inputs the dispatch code consults "
+                  "(policy theorem by vm_compute)"),
     "C03": dict(
         text="Theorems: for hook lists of any length the before hooks that "
              "run are exactly hooks 0..k in order (k = first stopping hook), "
@@ -171,8 +173,9 @@ CHECKS = {
              "in /repo (697ccfd) and now inside the round-trip theorem.",
         technique="Coq proof (lia over civil-date arithmetic, decimal lemmas, "
                   "list induction) + vm_compute correspondence + "
-                  "source-to-Coq translation of _parseparam, parse_header "
-                  "with proved equality to the model"),
+                  "source-to-Coq translation of _parseparam, parse_header, "
+                  "parse_range, ContentRange, parse_/render_negotiation and "
+                  "the date functions with proved equality to the model"),
     "C19": dict(
         text="Theorems: for EVERY sequence of registration/removal calls the "
              "model's views equal those of a declarative registry (map (kind, "
